@@ -323,6 +323,20 @@ def run_shard(spec, res):
             uf = unsecured_frames(clock)
             muts += uf
             res.count("unsecured_frames", len(uf))
+            if rng.random() < 0.5:
+                # another station in this process whose trust anchors are the attacker's (a test bench or gateway serving two
+                # trust domains) hears the attacker's frames first: what it learns is its own business, not R's
+                ether2, R2, _sec2 = new_receiver(clock, A)
+                n_other = 0
+                for l_, f_ in af:
+                    ether2.inject("R", f_)
+                    ether2.drain()
+                    n_other += 1
+                res.count("rounds_with_a_neighbour_station_of_the_other_trust_domain")
+                res.count("attacker_frames_accepted_by_that_station", len(R2.gn_ind))
+                other_domain = True
+            else:
+                other_domain = False
             rng.shuffle(muts)
             # authentic frames of a hostile ticket holder, first and in between: they must not widen what is trusted
             ins = insider_frames(G, A, genuine)
@@ -375,6 +389,8 @@ def run_shard(spec, res):
                         detail = "[differs-in=" + ",".join(n for n, a, b in zip(("choice", "tbsData", "signer", "signature"), gv, mv) if a != b) + "]"
                     if mlab.startswith("attacker:") and any(l_.startswith("insider:") for l_, _ in muts[:k]):
                         detail += "[after-authentic-frames-of-a-hostile-ticket-holder]"
+                    if mlab.startswith("attacker:") and other_domain:
+                        detail += "[a-station-of-the-attackers-trust-domain-in-the-same-process-heard-it-first]"
                     res.violation(f"C03:forged-frame-delivered[{kind}]{where}{detail}",
                                   f"{mlab} of genuine {lab} frame was handed to upper layers ({d[0]} GN indications, {d[1]} BTP handler calls), receiver history {hist}", case)
             if rnd == 0:
